@@ -61,6 +61,7 @@ Inv_C13_Flip == Leaf => C13_PositronFlip(Cell)
 Inv_C13_Conj == Leaf => C13_ChargeConjugation(Cell)
 Inv_C13_Exch == Leaf => C13_EqualChargeExchange(Cell)
 Inv_C16 == Leaf => C16_OutcomeTotal(Cell)
+Inv_Registry == Leaf => RegistryComplete(Cell)
 \* not an invariant: reachable witnesses that in-place sharing WOULD be harmful (expected violated)
 NoSharingHarm == Leaf => ~SharingHarmful(Cell)
 =============================================================================
